@@ -5,16 +5,23 @@
 From Coq Require Import List ZArith Lia Bool.
 Import ListNotations.
 From CAres.Wire Require Import Cursor Cursor_proofs Name Record Parse Escape Escape_proofs RefDecode Name_ref Write Write_name Write_host
-     Write_name2 Write_pos Write_patch Write_enc Write_fields Write_query2 Write_fields2 Write_rr Write_errs Write_weq Wnorm Parse_sets Parse_ref3 Parse_ref5 Parse_cmp2 Parse_cmp3.
+     Write_name2 Write_name3 Write_pos Write_patch Write_enc Write_fields Write_query2 Write_fields2 Write_rr Write_errs Write_weq Wnorm Parse_sets Parse_ref3 Parse_ref5 Parse_cmp2 Parse_cmp3.
 From CAres.Gen Require Import Consts LeafFns Tables.
 Local Open Scope Z_scope.
 
 (* ---- the values the reference reports are the values of the record ---- *)
 Definition norm_kv (kv : Z * fval) : Z * fval := (fst kv, wnorm_fval (snd kv)).
 
+(* the fields with every name in canonical presentation form *)
+Fixpoint canon_fields (lay : list (Z * fkind)) (fs : list (Z * fval)) : list (Z * fval) :=
+  match lay, fs with
+  | (_, k) :: lay', (key, v) :: fs' => (key, canon_fval k v) :: canon_fields lay' fs'
+  | _, _ => fs
+  end.
+
 Lemma lay_vals_fields r : forall lay pre fs,
   rr_fields r = pre ++ fs -> map fst fs = map fst lay -> NoDup (map fst pre ++ map fst lay) -> fields_wf lay r ->
-  map norm_kv (lay_vals lay r) = map norm_kv fs.
+  map norm_kv (lay_vals lay r) = map norm_kv (canon_fields lay fs).
 Proof.
   induction lay as [|[key k] lay IH]; intros pre fs Hf Hk Hnd Hwf.
   - destruct fs; [reflexivity | discriminate].
@@ -24,7 +31,7 @@ Proof.
     { intros Hin. apply NoDup_remove_2 in Hnd. apply Hnd. apply in_or_app. left. exact Hin. }
     assert (Hv0 : v0 = v).
     { unfold get_field in Hg. rewrite Hf, (assoc_get_app_notin key v pre fs Hnin) in Hg. injection Hg as <-. reflexivity. }
-    subst v0. cbn [lay_vals map fst snd]. unfold norm_kv at 1 3. cbn [fst snd].
+    subst v0. cbn [lay_vals canon_fields map fst snd]. unfold norm_kv at 1 3. cbn [fst snd].
     unfold field_of. rewrite Hg. rewrite (dec_val_wnorm k v Hv). f_equal.
     apply (IH (pre ++ [(key, v)]) fs); [rewrite Hf, <- app_assoc; reflexivity | exact Hk | | exact Hwf'].
     rewrite map_app. cbn [map fst]. rewrite <- app_assoc. exact Hnd.
@@ -58,16 +65,21 @@ Inductive rr_ok (r : rr) : Prop :=
 
 Definition is_opt (r : rr) : bool := rr_type r =? ARES_REC_TYPE_OPT.
 
+(* the RR with every name (owner, name fields of its RDATA) in canonical presentation form *)
+Definition canon_rr (r : rr) : rr :=
+  mkRR (canon (rr_name r)) (rr_type r) (rr_class r) (rr_ttl r)
+       (match layout (rr_type r) with Some lay => canon_fields lay (rr_fields r) | None => rr_fields r end).
+
 Lemma norm_rr_fields a b :
   rr_name a = rr_name b -> rr_type a = rr_type b -> rr_class a = rr_class b -> rr_ttl a = rr_ttl b ->
   map norm_kv (rr_fields a) = map norm_kv (rr_fields b) -> wnorm_rr a = wnorm_rr b.
 Proof. intros H1 H2 H3 H4 H5. unfold wnorm_rr. rewrite H1, H2, H3, H4. f_equal. exact H5. Qed.
 
 Lemma write_rr_any b nl r rcode b' nl1 M :
-  live_is b M -> ol_ok M nl -> rr_ok r -> 0 <= rcode ->
+  live_is b M -> ol_okg M nl -> rr_ok r -> 0 <= rcode ->
   write_one_rr wfixed 0 b nl r rcode 0 = Ok (b', nl1) ->
-  exists RR rref, live_is b' (M ++ RR) /\ bytes_ok RR /\ ol_ok (M ++ RR) nl1 /\
-    wnorm_rr rref = wnorm_rr r /\ rr_supported rref = true /\
+  exists RR rref, live_is b' (M ++ RR) /\ bytes_ok RR /\ ol_okg (M ++ RR) nl1 /\
+    wnorm_rr rref = wnorm_rr (canon_rr r) /\ rr_supported rref = true /\
     (Z.of_nat (length RR) <= 65535 ->
      forall post, ref_rr (M ++ RR ++ post) (length M)
                   = Some (rref, (length M + length RR)%nat, (if is_opt r then Some ((rcode / 16) mod 256) else None), true)).
@@ -75,9 +87,9 @@ Proof.
   intros Hb Hol Hok Hrc H. destruct Hok as [lay Hlay Hhead Hfw Hkeys Hcv Htxt | u ver fl l Hhead Hopt Hc Ht Hfs | rt dopt Hhead Hraw Hn255 Hcv Hfs].
   - destruct (write_rr_layout b nl r rcode b' nl1 M lay Hb Hol Hlay Hhead Hfw H) as (RR & Hb' & HRb & Hol' & Hdec).
     destruct (layout_keys _ _ Hlay) as (Hk & Hnd). destruct (layout_last_ok _ _ Hlay) as (_ & Htr & Hn41).
-    exists RR, (mkRR (rr_name r) (rr_type r) (rr_class r) (rr_ttl r) (lay_vals lay r)).
+    exists RR, (mkRR (canon (rr_name r)) (rr_type r) (rr_class r) (rr_ttl r) (lay_vals lay r)).
     split; [exact Hb'|]. split; [exact HRb|]. split; [exact Hol'|]. split; [|split].
-    + apply norm_rr_fields; try reflexivity. cbn [rr_fields].
+    + apply norm_rr_fields; try reflexivity. unfold canon_rr. cbn [rr_fields]. rewrite Hlay.
       apply (lay_vals_fields r lay [] (rr_fields r) eq_refl ltac:(rewrite Hkeys, Hk; reflexivity) Hnd Hfw).
     + unfold rr_supported. cbn [rr_type rr_class rr_fields]. rewrite Hcv, orb_true_r.
       assert (E255 : rr_type r =? 255 = false).
@@ -99,15 +111,15 @@ Proof.
     destruct Hopt as (Hty & _).
     eexists RR, _. split; [exact Hb'|]. split; [exact HRb|]. split; [exact Hol'|]. split; [|split; [|
       replace (is_opt r) with true by (symmetry; unfold is_opt; rewrite Hty; reflexivity); exact Hdec]].
-    + apply norm_rr_fields; cbn [rr_name rr_type rr_class rr_ttl rr_fields];
-        [reflexivity | rewrite Hty; reflexivity | rewrite Hc; reflexivity | rewrite Ht; reflexivity | rewrite Hfs; reflexivity].
+    + apply norm_rr_fields; unfold canon_rr; cbn [rr_name rr_type rr_class rr_ttl rr_fields];
+        [reflexivity | rewrite Hty; reflexivity | rewrite Hc; reflexivity | rewrite Ht; reflexivity | rewrite Hty, Hfs; reflexivity].
     + reflexivity.
   - destruct (write_rr_raw b nl r rcode b' nl1 M rt dopt Hb Hol Hhead Hraw H) as (RR & Hb' & HRb & Hol' & Hdec). cbv zeta in Hdec.
     destruct Hraw as (Hty & _).
     eexists RR, _. split; [exact Hb'|]. split; [exact HRb|]. split; [exact Hol'|]. split; [|split; [|
       replace (is_opt r) with false by (symmetry; unfold is_opt; rewrite Hty; reflexivity); exact Hdec]].
-    + apply norm_rr_fields; cbn [rr_name rr_type rr_class rr_ttl rr_fields];
-        [reflexivity | rewrite Hty; reflexivity | reflexivity | reflexivity | rewrite Hfs; destruct dopt; reflexivity].
+    + apply norm_rr_fields; unfold canon_rr; cbn [rr_name rr_type rr_class rr_ttl rr_fields];
+        [reflexivity | rewrite Hty; reflexivity | reflexivity | reflexivity | rewrite Hty, Hfs; destruct dopt; reflexivity].
     + unfold rr_supported. cbn [rr_type rr_class rr_fields assoc_get]. rewrite Z.eqb_refl. rewrite Hcv.
       replace (rt =? 255) with false by (symmetry; apply Z.eqb_neq; exact Hn255). reflexivity.
 Qed.
@@ -117,10 +129,10 @@ Definition exts_of (rcode : Z) (rs : list rr) : list Z :=
   flat_map (fun r => if is_opt r then [(rcode / 16) mod 256] else []) rs.
 
 Lemma write_rrs_any rcode : forall rs b nl b' nl' M,
-  live_is b M -> ol_ok M nl -> Forall rr_ok rs -> 0 <= rcode ->
+  live_is b M -> ol_okg M nl -> Forall rr_ok rs -> 0 <= rcode ->
   write_rrs wfixed 0 b nl rs rcode 0 = Ok (b', nl') ->
-  exists S rrefs, live_is b' (M ++ S) /\ bytes_ok S /\ ol_ok (M ++ S) nl' /\
-    map wnorm_rr rrefs = map wnorm_rr rs /\ forallb rr_supported rrefs = true /\
+  exists S rrefs, live_is b' (M ++ S) /\ bytes_ok S /\ ol_okg (M ++ S) nl' /\
+    map wnorm_rr rrefs = map wnorm_rr (map canon_rr rs) /\ forallb rr_supported rrefs = true /\
     (Z.of_nat (length S) <= 65535 ->
      forall post, ref_rrs (length rs) (M ++ S ++ post) (length M) = Some (rrefs, (length M + length S)%nat, exts_of rcode rs, true)).
 Proof.
@@ -233,10 +245,17 @@ Qed.
 Lemma rcode_range rc : rcode_isvalid rc = true -> 0 <= rc < 4096.
 Proof. unfold rcode_isvalid. intros H. apply zmem_in in H. unfold tbl_rcodes_valid in H. cbn [In] in H. repeat (destruct H as [<-|H]; [lia|]). destruct H. Qed.
 
+(* the record with every name in canonical presentation form *)
+Definition canon_q (q : question) : question := mkQ (canon (q_name q)) (q_type q) (q_class q).
+Definition canon_rec (d : dnsrec) : dnsrec :=
+  mkRec (d_id d) (d_flags d) (d_opcode d) (d_rcode d) (d_raw_rcode d) (map canon_q (d_qd d))
+        (map canon_rr (d_an d)) (map canon_rr (d_ns d)) (map canon_rr (d_ar d)).
+
 Theorem roundtrip_fixed d bs :
   msg_wf d -> dns_write d = Ok bs ->
   Z.of_nat (length bs) <= 65535 /\
-  exists d', dns_parse bs 0 = Ok d' /\ norm_parsed d' = norm_parsed d /\ wnorm_parsed d' = wnorm_parsed d /\ dns_write d' = Ok bs.
+  exists d', dns_parse bs 0 = Ok d' /\ norm_parsed d' = norm_parsed (canon_rec d) /\ wnorm_parsed d' = wnorm_parsed (canon_rec d) /\
+             (canon_rec d = d -> dns_write d' = Ok bs).
 Proof.
   intros (Hid & Hfl & Hop & Hopv & Hrcv & Hrco & (q & Hqd & (Hqn & Hqt & Hqc)) & Han & Hns & Har & Hopt1 & Lan & Lns & Lar) H.
   pose proof H as Hwrite0.
@@ -258,14 +277,13 @@ Proof.
   rewrite Z.gtb_ltb in E6. apply Z.ltb_ge in E6.
   (* the question *)
   unfold body in Ebody. rewrite Hqd in Ebody. cbn [write_questions] in Ebody.
-  destruct Hqn as (ls & Hnm & Hls & Hwl & Hsl & Hhost).
+  destruct Hqn as (ls & Hsp & Hls & Hsl). pose proof (canon_of true _ _ Hsp) as Hnm.
   pose proof (name_write_enc wfixed 0 b0 (Some []) true (q_name q)) as W. cbn [wfixed wv_msg_relative] in W.
   rewrite (live_is_len b0 A Hb0), Z.sub_0_r in W.
   destruct (name_enc wfixed (Z.of_nat (length A)) (Some []) true (q_name q)) as [[N nl0o]| |] eqn:En;
     [|rewrite W in Ebody; discriminate Ebody|rewrite W in Ebody; discriminate Ebody].
   destruct W as (bn & Ew & Hln & Hwn & Hfn). rewrite Ew in Ebody. cbn [bind fst snd] in Ebody.
-  rewrite Hnm in En.
-  destruct (name_enc_ok true A [] ls N nl0o (Forall_nil _) Hls Hwl ltac:(rewrite <- Hnm; exact Hsl) (fun _ => Hhost) En)
+  destruct (name_enc_ok true A [] (q_name q) ls N nl0o (Forall_nil _) Hsp Hls Hsl En)
     as (ol0 & -> & Hol0 & HNb & HrefN).
   rewrite (land_u16 _ Hqt) in Ebody.
   assert (Hqcr : 0 <= q_class q < 65536) by (apply (query_class_range _ _ Hqt Hqc)).
@@ -275,7 +293,7 @@ Proof.
   assert (Hbq : live_is bq Mq).
   { unfold bq, Mq. rewrite !app_assoc. apply live_is_be16. apply live_is_be16.
     destruct Hb0 as (A1 & A2 & A3). split; [auto | split; [auto | rewrite Hln, A3; reflexivity]]. }
-  assert (Holq : ol_ok Mq ol0) by (unfold Mq; rewrite app_assoc; apply ol_ok_app; exact Hol0).
+  assert (Holq : ol_okg Mq ol0) by (unfold Mq; rewrite app_assoc; apply ol_okg_app; exact Hol0).
   (* the three sections *)
   destruct (write_rrs wfixed 0 bq ol0 (d_an d) (d_rcode d) 0) as [[b1 nl1]| |] eqn:E1; cbn [bind fst snd] in Ebody; try discriminate Ebody.
   destruct (write_rrs_any (d_rcode d) (d_an d) bq ol0 b1 nl1 Mq Hbq Holq Han ltac:(lia) E1)
@@ -367,12 +385,12 @@ Proof.
   destruct (complete_fixed bs Hbok Hstrict) as (d' & Hparse).
   split; [exact HlenB|]. exists d'. split; [exact Hparse|].
   pose proof (sound_fixed_w bs d' rf Hbok Hparse Rd) as Hs.
-  assert (Hw : wnorm_parsed d' = wnorm_parsed d).
-  { rewrite Hs. unfold rf, wnorm_ref, wnorm_parsed. cbn [rf_rec d_id d_flags d_opcode d_rcode d_qd d_an d_ns d_ar].
+  assert (Hw : wnorm_parsed d' = wnorm_parsed (canon_rec d)).
+  { rewrite Hs. unfold rf, wnorm_ref, wnorm_parsed, canon_rec. cbn [rf_rec d_id d_flags d_opcode d_rcode d_qd d_an d_ns d_ar].
     rewrite Hhwf, Hhwo, Hrcode, Hn1, Hn2, Hn3, Hqd.
-    unfold reported_rcode. rewrite Hrcv. rewrite <- Hnm. destruct q; reflexivity. }
+    unfold reported_rcode. rewrite Hrcv. cbn [map]. unfold canon_q. rewrite Hnm. reflexivity. }
   split; [apply wnorm_parsed_norm; exact Hw|]. split; [exact Hw|].
-  rewrite (dns_write_wnorm d' d Hw). exact Hwrite0.
+  intros Hcan. rewrite Hcan in Hw. rewrite (dns_write_wnorm d' d Hw). exact Hwrite0.
 Qed.
 
 (* ---- not vacuous: a response with A, MX (compressed exchange), TXT and an OPT RR with options ---- *)
@@ -393,17 +411,17 @@ Ltac labels_ok := repeat constructor; try zcmp.
 Ltac zr := repeat split; zcmp.
 
 Lemma ex_owner_name : owner_wf ex_name.
-Proof. exists [[97]; [98; 99]]%N. split; [reflexivity|]. split; [labels_ok|]. split; [zcmp|]. split; [zcmp|]. labels_ok. Qed.
+Proof. exists [[97]; [98; 99]]%N. split; [reflexivity|]. split; [labels_ok | zcmp]. Qed.
 
 Lemma ex_owner_mx : owner_wf ex_mx.
-Proof. exists [[109]; [97]; [98; 99]]%N. split; [reflexivity|]. split; [labels_ok|]. split; [zcmp|]. split; [zcmp|]. labels_ok. Qed.
+Proof. exists [[109]; [97]; [98; 99]]%N. split; [reflexivity|]. split; [labels_ok | zcmp]. Qed.
 
 Lemma ex_owner_root : owner_wf [].
-Proof. exists []. split; [reflexivity|]. split; [constructor|]. split; [zcmp|]. split; [zcmp|]. constructor. Qed.
+Proof. exists []. split; [reflexivity|]. split; [constructor | zcmp]. Qed.
 
-Example roundtrip_applies : msg_wf ex_record /\ exists bs, dns_write ex_record = Ok bs.
+Example roundtrip_applies : msg_wf ex_record /\ canon_rec ex_record = ex_record /\ exists bs, dns_write ex_record = Ok bs.
 Proof.
-  split; [|eexists; vm_compute; reflexivity].
+  split; [|split; [vm_compute; reflexivity | eexists; vm_compute; reflexivity]].
   unfold msg_wf. cbn [ex_record d_id d_flags d_opcode d_rcode d_qd d_an d_ns d_ar].
   split; [zr|]. split; [zr|]. split; [zr|]. split; [reflexivity|]. split; [reflexivity|]. split; [intros _; reflexivity|].
   split.
@@ -414,7 +432,7 @@ Proof.
       repeat constructor; cbn [fst snd].
       + eexists. split; [reflexivity|]. cbn. eexists. split; [reflexivity | zr].
       + eexists. split; [reflexivity|]. cbn. eexists. split; [left; reflexivity|].
-        exists [[109]; [97]; [98; 99]]%N. split; [reflexivity|]. split; [labels_ok|]. zr.
+        exists [[109]; [97]; [98; 99]]%N. split; [reflexivity|]. split; [labels_ok | zcmp].
     - eapply rr_ok_layout; [reflexivity | split; [exact ex_owner_mx | zr] | | reflexivity | reflexivity | reflexivity].
       repeat constructor; cbn [fst snd]. eexists. split; [reflexivity|]. cbn. eexists. split; [reflexivity|]. split; [reflexivity | labels_ok].
     - eapply rr_ok_layout; [reflexivity | split; [exact ex_owner_name | zr] | | reflexivity | reflexivity | reflexivity].
@@ -423,4 +441,71 @@ Proof.
   { repeat constructor. eapply rr_ok_opt; [split; [exact ex_owner_root | zr] | | reflexivity | reflexivity | reflexivity].
     unfold opt_wf. cbn. repeat split; try reflexivity; try zcmp. labels_ok; unfold tlv_wf; cbn; zr. }
   cbn. zr.
+Qed.
+
+(* ... and names that are NOT in canonical form: a trailing dot, a printable octet written as \DDD.
+   The writer accepts them, the message parses back to the record with canonical names. *)
+Definition ex_name_dot : list N := [97; 46; 98; 99; 46]%N.                        (* "a.bc." *)
+Definition ex_mx_ddd : list N := [92; 49; 48; 57; 46; 97; 46; 98; 99]%N.          (* "\109.a.bc" *)
+Definition ex_record2 : dnsrec :=
+  mkRec 1 ARES_FLAG_RD ARES_OPCODE_QUERY 0 0
+        [mkQ ex_name_dot 15 1]
+        [mkRR ex_name_dot 15 1 300 [(ARES_RR_MX_PREFERENCE, FU16 10); (ARES_RR_MX_EXCHANGE, FName (Some ex_mx_ddd))]]
+        [] [].
+
+Lemma ex_owner_dot : owner_wf ex_name_dot.
+Proof. exists [[97]; [98; 99]]%N. split; [reflexivity|]. split; [labels_ok | zcmp]. Qed.
+
+Example roundtrip_applies_noncanonical :
+  msg_wf ex_record2 /\ canon_rec ex_record2 <> ex_record2 /\ exists bs, dns_write ex_record2 = Ok bs.
+Proof.
+  split; [|split; [vm_compute; discriminate | eexists; vm_compute; reflexivity]].
+  unfold msg_wf. cbn [ex_record2 d_id d_flags d_opcode d_rcode d_qd d_an d_ns d_ar].
+  split; [zr|]. split; [zr|]. split; [zr|]. split; [reflexivity|]. split; [reflexivity|]. split; [intros G; vm_compute in G; discriminate G|].
+  split.
+  { eexists. split; [reflexivity|]. split; [exact ex_owner_dot|]. split; [zr | reflexivity]. }
+  split.
+  { repeat constructor.
+    eapply rr_ok_layout; [reflexivity | split; [exact ex_owner_dot | zr] | | reflexivity | reflexivity | reflexivity].
+    repeat constructor; cbn [fst snd].
+    + eexists. split; [reflexivity|]. cbn. eexists. split; [reflexivity | zr].
+    + eexists. split; [reflexivity|]. cbn. eexists. split; [left; reflexivity|].
+      exists [[109]; [97]; [98; 99]]%N. split; [reflexivity|]. split; [labels_ok | zcmp]. }
+  split; [constructor|]. split; [constructor|]. cbn. repeat split; lia.
+Qed.
+
+(* ---- the legacy query builders, for a name in any valid presentation text ---- *)
+Theorem query_builders_gen name cls type id rd udp bs :
+  owner_wf name -> 0 <= type < 65536 ->
+  create_query wfixed name cls type id rd udp = Ok bs ->
+  exists d d',
+    record_create_query name cls type (Z.land id 65535) (if rd =? 0 then 0 else ARES_FLAG_RD) (udp mod 2 ^ 64) = Ok d /\
+    dns_parse bs 0 = Ok d' /\ norm_parsed d' = norm_parsed (canon_rec d) /\ (canon name = name -> dns_write d' = Ok bs).
+Proof.
+  intros Hown Hty H. unfold create_query in H.
+  destruct (record_create_query name cls type (Z.land id 65535) (if rd =? 0 then 0 else ARES_FLAG_RD) (udp mod 2 ^ 64))
+    as [d| |] eqn:Er; cbn [bind] in H; [|discriminate H|discriminate H].
+  destruct (query_record_shape _ _ _ _ _ _ _ Er) as (Hd & Hcv & _ & Hu).
+  set (uv := udp mod 2 ^ 64) in *.
+  assert (Hwf : msg_wf d).
+  { rewrite Hd. unfold msg_wf, query_record. cbn [d_id d_flags d_opcode d_rcode d_qd d_an d_ns d_ar].
+    split; [apply land_u16_range|]. split; [destruct (rd =? 0); split; zcmp|]. split; [split; zcmp|]. split; [reflexivity|].
+    split; [reflexivity|]. split; [intros G; vm_compute in G; discriminate G|].
+    split; [eexists; split; [reflexivity|]; split; [exact Hown | split; [exact Hty | exact Hcv]]|].
+    split; [constructor|]. split; [constructor|].
+    destruct (uv >? 0) eqn:Eu.
+    - split.
+      + repeat constructor. eapply rr_ok_opt; [split; [exact ex_owner_root | split; split; zcmp] | | reflexivity | reflexivity | reflexivity].
+        unfold opt_wf, Write_query2.opt_rr. cbn [rr_type get_field rr_fields assoc_get].
+        repeat (first [rewrite Z.eqb_refl | change (?a =? ?b) with false]).
+        pose proof (land_u16_range uv) as Hr.
+        split; [reflexivity|]. split; [reflexivity|]. split; [exact Hr|]. split; [reflexivity|]. split; [split; zcmp|].
+        split; [reflexivity|]. split; [split; zcmp|]. split; [reflexivity | constructor].
+      + cbn. repeat split; lia.
+    - split; [constructor|]. cbn. repeat split; lia. }
+  destruct (roundtrip_fixed d bs Hwf H) as (_ & d' & Hp & Hn & _ & Hrw).
+  exists d, d'. split; [reflexivity|]. split; [exact Hp|]. split; [exact Hn|].
+  intros Hc. apply Hrw. rewrite Hd. unfold canon_rec, query_record.
+  cbn [d_id d_flags d_opcode d_rcode d_raw_rcode d_qd d_an d_ns d_ar map]. unfold canon_q. cbn [q_name q_type q_class].
+  rewrite Hc. destruct (uv >? 0); reflexivity.
 Qed.
